@@ -162,6 +162,93 @@ def nt_hexforms(case):
     return bool(case["ws"]) or len(case["digits"]) not in (32, 40, 48, 56, 64)
 
 
+# ------------------------------------------------------------------------------------ generator path
+import contextlib
+import random as _random
+
+
+class Scripted(_random.Random):
+    """Stands in for the module-level random source of btc_hd_wallet.bip39: returns chosen values."""
+
+    def __init__(self, values):
+        super().__init__(0)
+        self.values = list(values)
+        self.asked = []
+
+    def getrandbits(self, k):
+        self.asked.append(k)
+        v = self.values[(len(self.asked) - 1) % len(self.values)]
+        return v & ((1 << k) - 1) if k > 0 else 0
+
+    def random(self):
+        return self.getrandbits(53) / (1 << 53)
+
+
+@contextlib.contextmanager
+def scripted_random(values):
+    from btc_hd_wallet import bip39
+    stub = Scripted(values)
+    old = bip39.random
+    bip39.random = stub
+    try:
+        yield stub
+    finally:
+        bip39.random = old
+
+
+def check_generator(case, ctx):
+    bip39, BaseWallet = _impl()
+    e1, e2 = case["e1"], case["e2"]
+    if len(e2) != len(e1):
+        e2 = (e2 * 3)[: len(e1)]
+    bits = len(e1) * 8
+    for route in ("mnemonic_from_entropy_bits", "BaseWallet.from_entropy_bits", "BaseWallet.new_wallet"):
+        for e in (e1, e2, e1):
+            with scripted_random([int.from_bytes(e, "big")]) as stub:
+                if route == "mnemonic_from_entropy_bits":
+                    st_, s = call(bip39.mnemonic_from_entropy_bits, bits)
+                elif route == "BaseWallet.from_entropy_bits":
+                    st_, s = call(lambda: BaseWallet.from_entropy_bits(bits).mnemonic)
+                else:
+                    st_, s = call(lambda: BaseWallet.new_wallet(len(e) * 3 // 4).mnemonic)
+            if st_ == "exc":
+                raise Violation("C04/generator/raised", "%s(%d bits) raised %r" % (route, bits, s))
+            if not stub.asked:
+                ctx.count("scripted-source-not-consulted")
+                dec = R.decode(s) if isinstance(s, str) else None
+                if dec is None or not dec[1] or len(dec[0]) != len(e):
+                    raise Violation("C04/generator/invalid-sentence", "%s(%d bits) produced %r" % (route, bits, s))
+                continue
+            _judge_sentence("C04/generator", "%s(%d bits) with the random source returning %s" % (route, bits, e.hex()), s, e)
+
+
+def enum_gen_reject(tier):
+    for bits in range(0, 521):
+        if bits not in (128, 160, 192, 224, 256):
+            yield {"bits": bits}
+    for bits in (-8, -128, 1024, 2048, 4096):
+        yield {"bits": bits}
+
+
+def check_gen_reject(case, ctx):
+    bip39, BaseWallet = _impl()
+    bits = case["bits"]
+    for value in (1, (1 << max(bits, 1)) - 1):
+        for route, f in (("mnemonic_from_entropy_bits", lambda: bip39.mnemonic_from_entropy_bits(bits)),
+                         ("BaseWallet.from_entropy_bits", lambda: BaseWallet.from_entropy_bits(bits).mnemonic)):
+            with scripted_random([value]):
+                st_, s = call(f)
+            if st_ == "ok":
+                raise Violation("C04/generator/wrong-size-accepted", "%s(%d bits) returned the %d-word sentence %r"
+                                % (route, bits, len(str(s).split(" ")), str(s)[:60]))
+    if 0 <= bits <= 40 and bits not in (12, 15, 18, 21, 24):
+        with scripted_random([1]):
+            st_, w = call(BaseWallet.new_wallet, bits)
+        if st_ == "ok":
+            raise Violation("C04/generator/wrong-word-count-accepted", "new_wallet(mnemonic_length=%d) built a wallet: %r"
+                            % (bits, getattr(w, "mnemonic", None)))
+
+
 def check_wordlist(case, ctx):
     from btc_hd_wallet.bip39_wordlist import word_list
     wl = list(word_list)
@@ -200,6 +287,19 @@ def clauses():
                classes=lambda c: ["ws=%d" % min(len(c["ws"]), 3), "digits-ok" if len(c["digits"]) in (32, 40, 48, 56, 64)
                                   else "digits-other"],
                n={"quick": 6000, "thorough": 300000}),
+        Clause("generator", check_generator,
+               "the sentence generators (mnemonic_from_entropy_bits, BaseWallet.from_entropy_bits, new_wallet) with the "
+               "module's random source replaced from outside by a scripted one: the sentence must encode exactly the "
+               "drawn value (incl. values with leading zero bits), three consecutive draws per route; non-trivial = "
+               "a drawn value with a leading zero byte or constant bytes",
+               gen=lambda tier: st.fixed_dictionaries({"e1": entropies(), "e2": entropies()}),
+               nontrivial=lambda c: c["e1"][0] == 0 or len(set(c["e1"])) == 1,
+               n={"quick": 600, "thorough": 30000}, shards={"quick": 8, "thorough": 16}),
+        Clause("generator-reject", check_gen_reject,
+               "every bit size 0..520 other than the five (and negative / huge ones) with a scripted random source whose "
+               "values fit: the generators must raise; new_wallet word counts 0..40 other than the five must raise",
+               enum=enum_gen_reject, exhaustive=True, enum_desc="bit sizes 0..520 except 128/160/192/224/256",
+               shards={"quick": 4, "thorough": 4}),
         Clause("wordlist", check_wordlist,
                "the embedded list: 2048 entries, SHA-256 of english.txt and bitcoinj digest both match, sorted, "
                "unique 4-letter prefixes", enum=lambda tier: [{"list": "english"}], exhaustive=True,
